@@ -70,7 +70,8 @@ KNOWN3 = 'C10-degenerate-mosaic-child-not-closed'
 # AttributeErrors that are nutils' way of saying "not supported" on the pinned tree
 UNSUPPORTED = ("'MosaicReference' object has no attribute", "'OwnChildReference' object has no attribute", "'WithChildrenReference' object has no attribute",
                "'EmptyLike' object has no attribute", "object has no attribute 'connectivity'", "object has no attribute 'transforms'",
-               "object has no attribute 'space'", 'unsupported ischeme for EmptyLike')
+               "object has no attribute 'space'", 'unsupported ischeme for EmptyLike',
+               'duplicate nodes')   # last one: SimplexTopology.boundary of a 1-D simplex topology (boundary of a boundary) asserts
 
 
 def plan(tier, seed):
@@ -91,7 +92,7 @@ class Unavailable(Exception):
 
 
 def unsupported(e):
-    return topogen.is_refusal(e) or (type(e) in (AttributeError, Exception) and any(s in str(e) for s in UNSUPPORTED))
+    return topogen.is_refusal(e) or (type(e) in (AttributeError, Exception, AssertionError) and any(s in str(e) for s in UNSUPPORTED))
 
 
 def monitor_refusal(e):
@@ -439,9 +440,14 @@ class Monitors:
                     self.res.count('unavailable/parents')
                 except ValueError as e:
                     self.fail('trim partitions the measure', f'an element of a trimmed part is not an element of the base: {e}')
-            # the cut, seen from both sides
+            # the cut, seen from both sides.  Only for the first cut of a history: in a nested SubsetTopology nutils moves faces that an earlier
+            # trim/subset already exposed (neighbour partially present) from the old group into the new one (labelling only; closure is still
+            # demanded by (c)), so the groups of a second cut are not comparable piece by piece.
             if len(pos) and len(N):
-                self.cut(base, pos, N, label, name, geom, geom0, s)
+                if self._nested(base):
+                    self.res.count('cut_comparison_skipped_nested_subset')
+                else:
+                    self.cut(base, pos, N, label, name, geom, geom0, s)
             # union restores the base
             if len(pos) and len(N) and label == 'base - pos':
                 try:
@@ -458,14 +464,29 @@ class Monitors:
                         raise
                     self.res.count('unavailable/trim_union')
 
+    @staticmethod
+    def _nested(topo):
+        from nutils import topology
+        seen, stack = set(), [topo]
+        while stack:
+            T = stack.pop()
+            if id(T) in seen:
+                continue
+            seen.add(id(T))
+            if isinstance(T, topology.SubsetTopology):
+                return True
+            stack += [x for x in (getattr(T, 'basetopo', None), getattr(T, 'parent', None)) if x is not None]
+            stack += list(getattr(T, '_topos', ()))
+        return False
+
     def degenerate_levelset(self, base, info):
         try:
             smp = base.sample('vertex', info['maxrefine'])
             lv = smp.eval(info['levelset'])
             for k in range(len(base)):
                 l = lv[smp.getindex(k)]
-                if (l == 0).sum() >= 2 and (l > 0).any() and (l < 0).any():
-                    return True
+                if (l == 0).all() or ((l == 0).sum() >= 2 and (l > 0).any() and (l < 0).any()):
+                    return True   # an element inside the zero set is kept by trim(f) and by trim(-f)
             return False
         except Exception as e:
             self.res.add('unavailable_signatures', 'levels: ' + topogen.signature(e))
@@ -752,7 +773,7 @@ def known_mechanism(mon, history, step, monitors):
     * the history has a trim/subset/minus followed later by refined_by/hinter/refine;
     * the failing topology is a HierarchicalTopology H over a SubsetTopology S;
     * the deficits  int_dS - int_dH  of (measure, n, x.n) equal, to rounding, the sum over exactly those pieces of dS
-      that (i) belong to an element of S that H refined, (ii) whose root reference is a simplex (line, triangle, tetrahedron)
+      that (i) belong to an element of S that H refined, (ii) whose root reference is a simplex (line, triangle, tetrahedron) or any 3-D element
       and (iii) whose chain below the element contains a generic Updim/ScaledUpdim item (an edge created by a cut: the items
       whose swapdown does not handle SimplexChild); and that sum is not zero.
     Anything else stays a plain violation.  Returns (bool, explanation)."""
@@ -787,8 +808,8 @@ def known_mechanism(mon, history, step, monitors):
     pa, pz, pf, owners = 0., numpy.zeros(D), 0., set()
     for b, chain in enumerate(SB.transforms):
         own, tail = S.transforms.index_with_tail(chain)
-        if own in unrefined or not _simplex_base(S.references[own]):
-            continue
+        if own in unrefined or not (_simplex_base(S.references[own]) or D == 3):
+            continue   # 3-D: the same loss is observed for trimmed tensor elements (different path: the swapdown patch does not repair it)
         if any(type(t) in (transform.Updim, transform.ScaledUpdim) for t in tail):
             pa += ae[b]
             pz += ze[b]
@@ -801,7 +822,7 @@ def known_mechanism(mon, history, step, monitors):
              for o, r in ((bS['area'] - bH['area'], pa), (bS['z'] - bH['z'], pz), (bS['flux'] - bH['flux'], pf)))
     if not ok:
         return False, f'boundary deficit {bS["area"] - bH["area"]:.6g} is not the measure {pa:.6g} of the cut edges of the refined simplex elements {sorted(owners)}'
-    return True, f'boundary lacks exactly the cut edges (measure {pa:.6g}) of the hierarchically refined simplex elements {sorted(owners)} of the trimmed topology'
+    return True, f'boundary lacks exactly the cut edges (measure {pa:.6g}) of the hierarchically refined {"3-D" if D == 3 else "simplex"} elements {sorted(owners)} of the trimmed topology'
 
 
 def _retrimmed(topo):
